@@ -139,19 +139,20 @@ PROPS = {
     ),
     "C06": dict(
         theorems=["HC.C06.frame", "HC.C06.header_round_trip", "HC.C06.entry_round_trip", "HC.C06.entries_read_back",
-                  "HC.C06.read_write", "HC.C06.bitfield_exact"],
+                  "HC.C06.read_write", "HC.C06.bitfield_exact", "HC.C06.read_any_slots", "HC.C06.bitfield_pages"],
         bridge_modules=["HC.Bridge.Oplog", "HC.Bridge.Stores"], bridging=OPLOG_BRIDGE + STORES_BRIDGE,
         runs=_c06_runs,
-        partial="proved: frame/header/entry round trips, read-back of any entry region, Oplog::open on any two-valid-slot file laid out by the JS rules. Single-slot files, bitfield/tree/data stores and the interoperability hashes are covered by the run.",
+        partial="proved: frame/header/entry round trips, read-back of any entry region, Oplog::open on any file laid out by the JS rules = the JS reader's rule (read_write for two valid slots in the exact slot layout, read_any_slots for any combination of valid/invalid slots, any frames, any non-frame tail), bitfield pages as little-endian bits. Tree/data stores and the interoperability hashes are covered by the run.",
         rule="(1) the five-step interoperability scenario of tests/js_interop.rs executed by the crate and by the model; SHA-256 of the four stores after each step compared with the golden constants read from that test file; (2) after every mutating operation of writer and replica histories the raw bytes of the four real stores are handed to the Lean reader, whose reconstruction is compared with what the API reports; (3) every final storage is re-encoded with an independent encoder as {header in slot 1 only, header in slot 0 only, stale entries appended, trailing garbage, trailing zero leader, last entry flagged partial} and opened by the crate and the model",
         trusted=LOG_TRUSTED + ["the golden hashes are trusted as certified against the JavaScript implementation (the JS side cannot be run here)"],
     ),
     "C05": dict(
         theorems=["HC.C05.nodes_eq_ref", "HC.C05.batch_roots", "HC.C05.roots_determined", "HC.C05.commit_keeps", "HC.C05.treeOK_empty",
-                  "HC.C05.batch_independent", "HC.C05.root_hash_and_signature", "HC.C05.signature_verifies"],
+                  "HC.C05.batch_independent", "HC.C05.root_hash_and_signature", "HC.C05.signature_verifies",
+                  "HC.C05.rep_tree", "HC.C05.history_tree", "HC.C05.recovered_tree"],
         bridge_modules=["HC.Bridge.Stores"], bridging=["HC.Bridge.Stores.hash_scheme", "HC.Bridge.Stores.tree_nodes"],
         runs=_c05_runs,
-        partial="proved for every crypto record, block list and split into appends: created nodes = reference nodes, roots = reference roots, root hash and signature as prescribed. Reopen (roots reloaded from the tree store) and 'proofs carry persisted nodes' are validated by the run, which compares the crate with the Lean reference AND with a third reference in the harness (blake2 / ed25519-dalek called directly).",
+        partial="proved for every crypto record, block list and split into appends: created nodes = reference nodes, roots = reference roots, root hash and signature as prescribed. On the model of the whole crate: after any history with reopen steps and after crash recovery the roots, length, byte length and every node lookup are the reference ones (history_tree, recovered_tree). 'Proofs carry persisted nodes' and the stored signature after reopen are validated by the run, which compares the crate with the Lean reference AND with a third reference in the harness (blake2 / ed25519-dalek called directly).",
         rule="block sequences with every length 0..max (root sets of every shape), sizes 0..5 KiB or fixed 3-byte blocks, any mix of single and batch appends and reopen steps; after flushes and at the end: every non-zero record of the tree store is compared with the reference node at that index, the roots of an upgrade proof 0..len and the nodes of sampled block proofs with the reference, the served signature is verified with ed25519-dalek over namespace|tree hash|length|fork; the Lean side recomputes the whole reference tree with its own BLAKE2b/Ed25519 and must agree digest-for-digest",
         trusted=LOG_TRUSTED + ["type bytes and namespace come from the source through bridging lemmas; Crypto.real is checked against RFC 7693/8032 vectors by agreement with blake2/ed25519-dalek on every hash and signature of every run"],
         assumptions=["signature_verifies assumes verify (publicKey seed) m (sign seed m) for the crypto record"],
